@@ -58,6 +58,8 @@ Definition checked_mul (a b : N) : option N :=
 (** plain [+] on caller-supplied integers: panics with overflow checks on, wraps otherwise *)
 Definition uadd (oc : bool) (a b : N) : res N :=
   if (a + b <? W)%N then Ok (a + b)%N else if oc then Panic else Ok ((a + b) mod W)%N.
+(** [checked_add(..)] under an assertion: a sum that leaves 64 bits panics in either build mode *)
+Definition cadd (a b : N) : res N := if (a + b <? W)%N then Ok (a + b)%N else Panic.
 Definition umul (oc : bool) (a b : N) : res N :=
   if (a * b <? W)%N then Ok (a * b)%N else if oc then Panic else Ok ((a * b) mod W)%N.
 (** subtraction of internal (buffer-derived) quantities: an underflow is a defect in
